@@ -4,15 +4,16 @@
 set -u
 patch=$1; shift
 cd /verif
-R=/tmp/repo_seed
+R=${SEED_REPO:-/tmp/repo_seed}
 git -C $R checkout -q --detach $(git -C /repo rev-parse HEAD); git -C $R checkout -q -- . ; git -C $R clean -fdq
 git -C $R apply "$patch" || { echo "patch does not apply"; exit 9; }
 for id in "$@"; do
   start=$(date +%s)
-  VERIF_EVIDENCE_DIR=/tmp/seed_evidence ./vcheck $id --tier quick --repo $R > /tmp/seedcheck_$id.log 2>&1
+  VERIF_EVIDENCE_DIR=${SEED_EVID:-/tmp/seed_evidence} ./vcheck $id --tier quick --repo $R > /tmp/seedcheck_$id$SEED_TAG.log 2>&1
   rc=$?
   end=$(date +%s)
   echo "== $id exit=$rc wall=$((end-start))s"
-  grep -E "^VIOLATION|^KNOWN|ENGINE-MISMATCH|inconclusive:|failure:" /tmp/seedcheck_$id.log | cut -c1-260 | head -8
+  echo "   violations=$(grep -c '^VIOLATION' /tmp/seedcheck_$id$SEED_TAG.log) mismatches=$(grep -c '^ENGINE-MISMATCH' /tmp/seedcheck_$id$SEED_TAG.log)"
+  grep -E "^VIOLATION|ENGINE-MISMATCH|inconclusive:|failure:" /tmp/seedcheck_$id$SEED_TAG.log | cut -c1-260 | head -6
 done
 git -C $R checkout -q -- .
